@@ -45,6 +45,11 @@ CHECKS = {
   technique='TLA+ spec NNPS.tla (IsPermutation, SameBag of whole particle records, RealsFirst, query contract after the next update); recorded re-orderings of the real NNPS classes decided by TLC (TraceNNPS.tla)',
   text='For every class implementing get_spatially_ordered_indices, scenarios (small exhaustive placements, random clouds, periodic domains that create ghost-tagged rows, strided and typed extra properties) are replayed: the returned index list, the arrays immediately after spatially_order_particles and the neighbour lists after the following update are recorded and TLC decides permutation-ness, preservation of the multiset of whole particle records, Local rows first with the right num_real_particles, and the neighbour contract again.',
   note='Shares NNPS.tla and the driver with C01; failures of the plain neighbour query are attributed to C01. Design run: NNPS.hist.cfg (snapshot semantics).'),
+ 'C07': dict(
+  cat='model_checking', design_ref='DESIGN.md section 5 (C07), 4.2',
+  technique='TLA+ spec Domain.tla: declarative image set (per-axis periodic shifts and reflections with layer conditions) vs the per-axis pass mechanism, model-checked by TLC on all inputs of small 1-D/2-D instances; updates of the real DomainManager decided by TLC (TraceDomain.tla)',
+  text='The ghosts of a domain update are specified declaratively (every combination of per-axis periodic shifts / reflections whose layer conditions hold, as a multiset; ties at exactly the layer distance may go either way) together with wrapping, tagging, exact copies of the copied properties, reversed normal velocity for mirrors and idempotence of a second update. TLC checks that the implementation-shaped per-axis passes produce exactly that on every input of small instances. Thousands of lattice scenarios (1-3 D, periodic / mirror / mixed axes, n_layers 1-3, 1-2 arrays, copied-property subsets, move-then-update histories) are run through the real DomainManager and every round is decided by TLC.',
+  note='Lattice unit is a power of two so all comparisons are exact; layer = n_layers*radius_scale*hmax smaller than the box; an axis is periodic or mirrored, not both.'),
 }
 
 NOT_APPLICABLE = {
